@@ -5,6 +5,7 @@ package harness
 import (
 	"bytes"
 	"crypto/sha256"
+	"encoding/binary"
 	"fmt"
 	"hash/fnv"
 	"math/rand"
@@ -14,6 +15,8 @@ import (
 	"time"
 
 	"github.com/google/uuid"
+
+	storetypes "cosmossdk.io/store/types"
 
 	sdk "github.com/cosmos/cosmos-sdk/types"
 	"github.com/cosmos/cosmos-sdk/types/address"
@@ -55,7 +58,9 @@ type c16Rec struct {
 	exp  *int64
 }
 
-func (r c16Rec) key() string { return fmt.Sprintf("%d|%s|%d", r.acct, strings.ToLower(strings.TrimSpace(r.name)), r.val) }
+func (r c16Rec) key() string {
+	return fmt.Sprintf("%d|%s|%d", r.acct, strings.ToLower(strings.TrimSpace(r.name)), r.val)
+}
 
 type c16NameRec struct {
 	bound  bool
@@ -77,28 +82,40 @@ type c16Q struct {
 	adata   *int64 // nil = error
 }
 
+// c16QE is one key of the expiration queue (store range 0x04) decoded: time, account id, the name
+// whose GetNameKeyBytes the key carries ("?" when it is none of the universe), value id (-1 unknown)
+type c16QE struct {
+	t    int64
+	acct int64
+	name string
+	val  int64
+}
+
 type c16Obs struct {
 	ok     bool
 	recs   []c16Rec
 	accts  [][]int64    // per name
 	owners []c16NameRec // per name
 	maxlen int64
+	queue  []c16QE // the raw expiration queue
 	q      c16Q
 }
 
 type c16Env struct {
-	app     *simapp.App
-	r       *rand.Rand
-	addrStr map[int64]string // id -> bech32 as used in messages (Account / Owner fields)
-	addrBz  map[int64][]byte // id -> raw bytes
-	idByStr map[string]int64
-	idByBz  map[string]int64
-	values  []string // index i -> value of id i+1
-	valID   map[string]int64
-	holders []int64 // every id whose attributes are dumped / listed
-	names   []string
-	genesis string
-	cfg     string // the Cfg term (constant per universe)
+	app        *simapp.App
+	r          *rand.Rand
+	addrStr    map[int64]string // id -> bech32 as used in messages (Account / Owner fields)
+	addrBz     map[int64][]byte // id -> raw bytes
+	idByStr    map[string]int64
+	idByBz     map[string]int64
+	values     []string // index i -> value of id i+1
+	valID      map[string]int64
+	nameByHash map[string]string // GetNameKeyBytes(n) -> n, for every name of the universes
+	valByHash  map[string]int64  // sha256(value) -> value id
+	holders    []int64           // every id whose attributes are dumped / listed
+	names      []string
+	genesis    string
+	cfg        string // the Cfg term (constant per universe)
 }
 
 func (e *c16Env) acc(id int64) sdk.AccAddress { return sdk.AccAddress(e.addrBz[id]) }
@@ -259,10 +276,39 @@ func (e *c16Env) observe(ctx sdk.Context, ok bool, q *c16Q, byKey, reverse, coun
 		}
 	}
 	o.maxlen = int64(e.app.AttributeKeeper.GetMaxValueLength(ctx))
+	o.queue = e.rawQueue(ctx)
 	if q != nil {
 		o.q = e.queries(ctx, *q, byKey, reverse, countTotal)
 	}
 	return o
+}
+
+// rawQueue reads the expiration queue straight from the attribute store:
+// 0x04 | unix seconds (8 bytes BE) | len | account bytes | name hash (32) | value hash (32)
+func (e *c16Env) rawQueue(ctx sdk.Context) []c16QE {
+	store := ctx.KVStore(e.app.GetKey(attrtypes.StoreKey))
+	it := storetypes.KVStorePrefixIterator(store, attrtypes.AttributeExpirationKeyPrefix)
+	defer it.Close()
+	out := []c16QE{}
+	for ; it.Valid(); it.Next() {
+		k := it.Key()
+		q := c16QE{acct: -1, name: "?", val: -1}
+		if len(k) >= 10 {
+			q.t = int64(binary.BigEndian.Uint64(k[1:9]))
+			l := int(k[9])
+			if len(k) == 10+l+64 {
+				q.acct = e.idOfBz(k[10 : 10+l])
+				if n, ok := e.nameByHash[string(k[10+l:10+l+32])]; ok {
+					q.name = n
+				}
+				if v, ok := e.valByHash[string(k[10+l+32:])]; ok {
+					q.val = v
+				}
+			}
+		}
+		out = append(out, q)
+	}
+	return out
 }
 
 func nN(x int64) string {
@@ -332,7 +378,11 @@ func (o c16Obs) term() string {
 			owners = append(owners, fmt.Sprintf("Some (%s, %s, %s)", coqStr(ow.stored), nN(ow.owner), coqBool(ow.restr)))
 		}
 	}
-	return "Obs " + coqBool(o.ok) + " " + c16RecList(o.recs) + " " + coqList(accts) + " " + coqList(owners) + " " + zI64(o.maxlen) + " " + o.q.term()
+	var qs []string
+	for _, q := range o.queue {
+		qs = append(qs, fmt.Sprintf("(%s, %s, %s, %s)", zI64(q.t), nN(q.acct), coqStr(q.name), zI64(q.val)))
+	}
+	return "Obs " + coqBool(o.ok) + " " + c16RecList(o.recs) + " " + coqList(accts) + " " + coqList(owners) + " " + zI64(o.maxlen) + " " + coqList(qs) + " " + o.q.term()
 }
 
 // one operation: its Coq term and how to run it on the real code
@@ -580,7 +630,7 @@ type c16Gen struct {
 	targets  []int64
 }
 
-func (g *c16Gen) pick(xs []int64) int64      { return xs[g.r.Intn(len(xs))] }
+func (g *c16Gen) pick(xs []int64) int64    { return xs[g.r.Intn(len(xs))] }
 func (g *c16Gen) pickS(xs []string) string { return xs[g.r.Intn(len(xs))] }
 
 func (g *c16Gen) goodType() int64 {
@@ -971,10 +1021,19 @@ func (g *c16Gen) scenarioLimit() []c16Op {
 	}
 	lim := int64(1 + g.r.Intn(2))
 	ops = append(ops, e.opBlock(last-g.now+1, lim))
-	for i := 0; i < 1+g.r.Intn(3); i++ {
+	// further blocks with the same small limit: as many as it takes for the limit to get through
+	// everything that has expired (and sometimes one fewer, or a few more); the checker demands
+	// "all gone" exactly when the limits of the run add up to the number expired
+	more := (int64(k)+1+lim-1)/lim - 1 + int64(g.r.Intn(3)) - 1
+	if more < 1 {
+		more = 1
+	}
+	for i := int64(0); i < more; i++ {
 		ops = append(ops, e.opBlock(int64(g.r.Intn(2)), lim))
 	}
-	ops = append(ops, e.opBlock(0, c16Limit))
+	if g.r.Intn(2) == 0 {
+		ops = append(ops, e.opBlock(0, c16Limit))
+	}
 	return ops
 }
 
@@ -997,8 +1056,15 @@ func (g *c16Gen) scenarioTransfer() []c16Op {
 	}
 	ops = append(ops, e.opModify(auth, n, a2, g.r.Intn(2) == 0))
 	ops = append(ops, e.opAdd(a1, h, sp(), 3, 3, nil), e.opDelete(a1, h, n), e.opUpdateExp(a1, h, sp(), 1, nil)) // former owner: refused
-	ops = append(ops, e.opUpdate(a2, h, sp(), 1, 3, 2, 5), e.opAdd(a2, h, sp(), 3, 3, nil))                        // new owner
-	ops = append(ops, e.opDeleteName(n, a1), e.opDeleteName(sp(), a2))                                              // only the new owner may delete the name
+	ops = append(ops, e.opUpdate(a2, h, sp(), 1, 3, 2, 5), e.opAdd(a2, h, sp(), 3, 3, nil))                      // new owner
+	// only the new owner may delete the name — spelled, half of the time, with white space next to
+	// a dot (the name module normalises per segment, the attribute store keys only the whole);
+	// once the name is gone nothing may be left under it for a stranger to delete
+	delName := sp()
+	if g.r.Intn(2) == 0 {
+		delName = c16Spell(g.r, n, 3)
+	}
+	ops = append(ops, e.opDeleteName(n, a1), e.opDeleteName(delName, a2), e.opDelete(a1, h, n))
 	ops = append(ops, g.scBind(n, a3), e.opAdd(a2, h, sp(), 1, 3, nil), e.opAdd(a3, h, sp(), 1, 3, nil), e.opDeleteDistinct(a3, h, n, 1))
 	return ops
 }
@@ -1133,6 +1199,14 @@ func TestC16(t *testing.T) {
 		return fmt.Sprintf("(Cfg %d%%N %d%%N %d%%N %s %s %s %s %s %s %s %d)", np.MinSegmentLength, np.MaxSegmentLength, np.MaxNameLevels,
 			coqList(genesis), coqList(have), coqList(kinds), coqList(vlens), coqList(ar), coqList(nr), coqList(vr),
 			app.AttributeKeeper.GetMaxValueLength(baseCtx))
+	}
+	env.nameByHash, env.valByHash = map[string]string{}, map[string]int64{}
+	for _, n := range append(append(append([]string{}, stdNames...), colNames...), "c16", "open", "bbcc", "bb", attrtypes.AccountDataName) {
+		env.nameByHash[string(attrtypes.GetNameKeyBytes(n))] = n
+	}
+	for i, v := range env.values {
+		h := sha256.Sum256([]byte(v))
+		env.valByHash[string(h[:])] = int64(i + 1)
 	}
 	stdUniverse := universe(stdNames, "c16", "open")
 	colUniverse := universe(colNames, "bbcc", "bb")
